@@ -247,8 +247,9 @@ def run(ctx: Context) -> None:
         if len(comps) == 1:
             g = comps[0].generators[0]
             ok = (len(comps[0].generators) == 1 and not g.ifs and flow.canon(g.iter) == ('attr', ('param', 'self'), 'polygons')
-                  and isinstance(comps[0].elt, ast.IfExp) and 'centroid' in norm_text(comps[0].elt.body)
-                  and norm_text(comps[0].elt.test) == f"{g.target.id} is not None" and 'nan' in norm_text(comps[0].elt.orelse))
+                  and isinstance(comps[0].elt, ast.IfExp) and 'centroid' in norm_text(comps[0].elt.orelse)
+                  and norm_text(comps[0].elt.test) == f"{g.target.id} is None" and 'nan' in norm_text(comps[0].elt.body))
+            # (conditional expressions are normalised to their positive test: `nan if polygon is None else centroid`)
         ctx.check('R02.4', ok, "generic face centres: one entry per polygon in order, NaN for holes", bfc, comps[0] if comps else bfc.node)
 
     # ------------------------------------------------------------------ R02.5
